@@ -402,7 +402,7 @@ def run(ctx):
         with open(os.path.join(d, "in", "replay.txt"), "w") as f:
             f.write(text)
         origin = rp.get("origin", "")
-        if origin.startswith("tools/trim/testdata") or origin.startswith("exploration"):
+        if origin.startswith("tools/trim/testdata") or origin.startswith("exploration") or origin.startswith("corpus/C20/direct"):
             # outside CoreCUE: the direct checks only
             vlib.run([harness, "--mode", "corpus", "--dir", os.path.join(d, "in"), "--out", d, "--nomut", "1"], timeout=600)
             tl = open(os.path.join(d, "corpus.txt")).read().split("\n")[:-1]
@@ -490,6 +490,15 @@ def run(ctx):
     rstat = new_tstat()
     rstat["inputs"] = len(rl)
     explore(rl, rsrc, "exploration generator %s case %s (harness-c20 --mode rich --seed 20)", rstat)
+    # minimized inputs outside CoreCUE that must keep passing (multi-marked defaults, nested references)
+    d5 = os.path.join(ctx.work, "direct")
+    os.makedirs(d5, exist_ok=True)
+    vlib.run([harness, "--mode", "corpus", "--dir", os.path.join(vlib.VERIF, "corpus", "C20", "direct"), "--out", d5, "--nomut", "1"], timeout=600)
+    dl = open(os.path.join(d5, "corpus.txt")).read().split("\n")[:-1]
+    dsrc = open(os.path.join(d5, "corpus_src.txt")).read().split("### ")[1:]
+    dstat = new_tstat()
+    dstat["inputs"] = len(dl)
+    explore(dl, dsrc, "corpus/C20/direct/%s.txt %s", dstat)
     d4 = os.path.join(ctx.work, "witness")
     os.makedirs(d4, exist_ok=True)
     vlib.run([harness, "--mode", "corpus", "--dir", os.path.join(vlib.VERIF, "corpus", "C20", "explore"), "--out", d4, "--nomut", "1"], timeout=600)
@@ -526,6 +535,7 @@ def run(ctx):
         "vm_compute_crosschecked": nvm,
         "testdata_exploration": tstat,
         "generator_exploration_outside_corecue": rstat,
+        "direct_corpus_outside_corecue": dstat,
         "known_finding_witnesses": wstat,
         "traces_validated_against_impl": st.accepted,
         "harness_build_s": hsecs,
